@@ -49,3 +49,199 @@ def free_flag(name, used):
         raise RuntimeError(f"free_flag: {name} reused on one path")
     used.add(name)
     return _fork(cur(), z3.Bool(name))
+
+
+# =================================================================================================
+# hybrid time environment: concrete instants stay real floats, symbolic ones are symbolic doubles
+# =================================================================================================
+# `JulianDate` / `ScenarioTime` subclass `float`.  symx.timeenv re-bases *every* instance onto SFloat (and needs the
+# symbolic datetime model for the clock).  The C10 worlds run the whole real pipeline on concrete clock epochs; only
+# a few instants (the target of a propagateTo call, the Julian date of an event row) are solver variables.  Here the
+# names `JulianDate` / `ScenarioTime` are shadowed by *dispatching* classes: called with a symbolic double they build
+# an instance of the real class body re-based on SFloat (timeenv.rebase), called with anything else they build the
+# real class; isinstance() accepts both.  `float` is shadowed by fp.fp_float in the stardate module (the class
+# bodies strip the subclass with float(self)), so mixed real/symbolic arithmetic and comparisons of the real method
+# bodies produce SFloat / SBool.  datetime/timedelta stay the real C types (clock epochs are concrete).
+_HYB = {}
+
+
+def _hybrid_classes():
+    if _HYB:
+        return _HYB
+    import importlib
+
+    from . import fp
+    from .timeenv import rebase
+
+    SD = importlib.import_module("resonaate.physics.time.stardate")
+    out = {}
+    for name in ("JulianDate", "ScenarioTime"):
+        real = getattr(SD, name)
+        sym = rebase(real)
+
+        class Meta(type):
+            _real, _sym = real, sym
+
+            def __call__(cls, x=0.0, *a):
+                if isinstance(x, fp.SFloat):
+                    return cls._sym(x)
+                return cls._real(x, *a)
+
+            def __instancecheck__(cls, obj):
+                return isinstance(obj, (cls._real, cls._sym))
+
+            def __subclasscheck__(cls, sub):
+                return issubclass(sub, (cls._real, cls._sym))
+
+            def __getattr__(cls, k):  # classmethods / class attributes of the real class (JulianDate.getJulianDate ...)
+                return getattr(cls._real, k)
+
+        out[name] = Meta(name, (), {"__module__": real.__module__, "__doc__": f"dispatching {name} (symx.ext_c10)"})
+        out[name + "_sym"] = sym
+        out[name + "_real"] = real
+    _HYB.update(out)
+    return _HYB
+
+
+def sym_julian_date(x):
+    """A JulianDate (real class body, re-based) carrying the symbolic double x."""
+    return _hybrid_classes()["JulianDate_sym"](x)
+
+
+def hybrid_time(extra=()):
+    """Context manager: shadow JulianDate/ScenarioTime (dispatching classes) and float in the stardate module and in every
+    module of `extra` = [(module name, {more names})] that binds those names."""
+    import contextlib
+    import importlib
+
+    from . import fp
+    from .stubs import shadow
+
+    H = _hybrid_classes()
+    SD = importlib.import_module("resonaate.physics.time.stardate")
+    st = contextlib.ExitStack()
+    st.enter_context(shadow(SD, float=fp.fp_float, JulianDate=H["JulianDate"], ScenarioTime=H["ScenarioTime"]))
+    for name, kw in extra:
+        mod = importlib.import_module(name)
+        names = dict(kw)
+        for k in ("JulianDate", "ScenarioTime"):
+            if k in mod.__dict__:
+                names.setdefault(k, H[k])
+        st.enter_context(shadow(mod, **names))
+    return st
+
+
+# =================================================================================================
+# pydantic models on proxies
+# =================================================================================================
+# pydantic-core validates in compiled code and rejects proxies.  `run_validators` builds the instance with
+# model_construct (no validation) and then calls the *Python bodies* of the model's own validators - the real functions
+# of /repo registered in __pydantic_decorators__ - in pydantic's order: field validators, then model validators.  The
+# declared Field constraints (gt/ge/lt/le) are returned as preconditions for the caller to assume.
+class UnsupportedValidator(Exception):
+    pass
+
+
+def field_preconditions(cls, values):
+    """Declared numeric Field bounds of `cls` as z3 constraints over the proxy values in `values`."""
+    out = []
+    for name, info in cls.model_fields.items():
+        v = values.get(name)
+        t = getattr(v, "t", None)
+        if t is None:
+            continue
+        for m in info.metadata:
+            for attr, mk in (("gt", lambda a, b: a > b), ("ge", lambda a, b: a >= b), ("lt", lambda a, b: a < b), ("le", lambda a, b: a <= b)):
+                b = getattr(m, attr, None)
+                if b is not None:
+                    out.append(mk(t, b))
+    return out
+
+
+def run_validators(cls, values):
+    """The instance of pydantic model `cls` that validation of `values` produces, computed by the model's own Python validators."""
+    import inspect
+    import types
+
+    dec = cls.__pydantic_decorators__
+    if dec.validators or dec.root_validators:
+        raise UnsupportedValidator("pydantic v1-style validators")
+    data = dict(values)
+    for d in dec.model_validators.values():
+        if d.info.mode == "before":
+            data = d.func(data)
+        elif d.info.mode != "after":
+            raise UnsupportedValidator(f"model validator mode {d.info.mode}")
+    done = {}
+    for name, finfo in cls.model_fields.items():
+        if name not in data:
+            continue
+        v = data[name]
+        # the declared bounds are enforced on what the before-validators hand on (a violated bound rejects the configuration)
+        for m in finfo.metadata:
+            for attr, ok in (("gt", lambda a, b: a > b), ("ge", lambda a, b: a >= b), ("lt", lambda a, b: a < b), ("le", lambda a, b: a <= b)):
+                b = getattr(m, attr, None)
+                if b is not None and not bool(ok(v, b)):
+                    raise ValueError(f"{name}: declared bound {attr}={b} violated")
+        for d in dec.field_validators.values():
+            if name not in d.info.fields and "*" not in d.info.fields:
+                continue
+            if d.info.mode == "wrap":
+                raise UnsupportedValidator("wrap field validator")
+            npar = len(inspect.signature(d.func).parameters)
+            v = d.func(v) if npar == 1 else d.func(v, types.SimpleNamespace(data=dict(done), field_name=name, config=None, context=None, mode="python"))
+        done[name] = v
+    inst = cls.model_construct(**done)
+    for d in dec.model_validators.values():
+        if d.info.mode == "after":
+            npar = len(inspect.signature(d.func).parameters)
+            inst = d.func(inst) if npar == 1 else d.func(inst, types.SimpleNamespace(data=dict(done), config=None, context=None, mode="python"))
+    return inst
+
+
+def sym_gcd(*args):
+    """math.gcd on symbolic integers (a C function: it would otherwise enumerate its arguments through __index__)."""
+    import math
+
+    from .core import SInt
+
+    def gcd2(a, b):
+        sa, sb = isinstance(a, SInt), isinstance(b, SInt)
+        if not sa and not sb:
+            return math.gcd(a, b)
+        if sa and sb:
+            a, b = abs(a), abs(b)
+            for _ in range(64):  # Euclid; forks on the symbolic remainders
+                if not b:
+                    return a
+                a, b = b, a % b
+            raise UnsupportedValidator("sym_gcd: more than 64 Euclid steps")
+        c, x = (int(b), a) if sa else (int(a), b)
+        c = abs(c)
+        if c == 0:
+            return abs(x)
+        # gcd(c, x) = the largest divisor of c that divides x
+        t = z3.IntVal(1)
+        for dv in sorted(d for d in range(2, c + 1) if c % d == 0):
+            t = z3.If(x.t % dv == 0, z3.IntVal(dv), t)
+        return SInt(t)
+
+    g = 0
+    for a in args:
+        g = gcd2(g, a)
+    return g
+
+
+def math_functions_on_proxies(module):
+    """Names to shadow in `module` so that integer helpers of the math module it uses accept proxies."""
+    import math
+    import types
+
+    names = {}
+    if module.__dict__.get("gcd") is math.gcd:
+        names["gcd"] = sym_gcd
+    if module.__dict__.get("math") is math:
+        ns = types.SimpleNamespace(**{k: getattr(math, k) for k in dir(math) if not k.startswith("__")})
+        ns.gcd = sym_gcd
+        names["math"] = ns
+    return names
